@@ -1,5 +1,6 @@
 """C15 — equal? / hash coherence (sexp.c sexp_equalp_bound, lib/srfi/69/hash.c)."""
-from vf import Query
+import os, re
+from vf import Query, REPO
 from common import R_ASSUME
 
 UNITS = ['kit:kitfull.c', 'repo:lib/srfi/69/hash.c|sexp_string_hash=sexp_string_hash_srfi69', 'repo:bignum.c', 'kit:env.c', 'kit:exc_models.c', 'kit:libc_models.c']
@@ -8,6 +9,31 @@ EXC = ['sexp_alloc_tagged_aux', 'sexp_type_exception', 'sexp_xtype_exception', '
 KINDS = {'fixnum': 1, 'flonum': 2, 'big1': 3, 'big2': 4, 'string': 5, 'bytes': 6, 'pair': 7, 'vector': 8, 'symbol': 9, 'char': 10}
 FUNCTIONS = ['sexp_equalp_op', 'sexp_equalp_bound', 'sexp_bignum_compare', 'sexp_flonum_eqv', 'sexp_hash', 'hash_one']
 US = dict({'memcmp.0': 40}, **{'hash_one.%d' % i: 40 for i in range(6)})
+
+
+UNITS_TAB = ['kit:kitfull.c', 'work:hash_ind.c|sexp_string_hash=sexp_string_hash_srfi69', 'repo:bignum.c', 'kit:env.c', 'kit:exc_models.c', 'kit:libc_models.c']
+HASH_DEF_RE = re.compile(r'^sexp\s+sexp_hash\s*\(\s*sexp\s+ctx\s*,\s*sexp\s+self\s*,\s*sexp_sint_t\s+n\s*,\s*sexp\s+obj\s*,\s*sexp\s+bound\s*\)\s*\{', re.M)
+
+
+def prepare(run, tier):
+    """Table-step queries are compositional (DESIGN R16): in a copy of the current hash.c only the *definition* of
+    sexp_hash is renamed sexp_hash_body; the table code's calls bind to a specification in the harness (an arbitrary
+    function of the key that agrees on equal? keys -- which is what the equal=>hash queries establish for the body)."""
+    src = os.path.join(REPO, 'lib/srfi/69/hash.c')
+    txt = open(src, errors='replace').read()
+    new, n = HASH_DEF_RE.subn('sexp sexp_hash_body (sexp ctx, sexp self, sexp_sint_t n, sexp obj, sexp bound) {', txt)
+    if n != 1:
+        raise RuntimeError('C15: definition of sexp_hash not found exactly once in hash.c (%d)' % n)
+    # R12: `x == SEXP_ONE` on a word that holds SEXP_TWO does not fold in symex (two integer-address pointers); the equivalent
+    # offset-and-value test does.  Same value on every input.
+    new, n2 = re.subn(r'\b(hash_fn|eq_fn) == (SEXP_ONE|SEXP_TWO)\b', r'verif_imm_eq((const void*)(\1), (const void*)(\2))', new)
+    run.extra_assumptions.append('R12: %d tests of the form hash_fn/eq_fn == SEXP_ONE/SEXP_TWO in the hash.c copy re-expressed as verif_imm_eq (same value on every input)' % n2)
+    with open(os.path.join(run.work, 'hash_ind.c'), 'w') as f:
+        f.write('#line 1 "%s"\n' % src)
+        f.write(new)
+    run.src_dirs[os.path.join(run.work, 'hash_ind.c')] = os.path.dirname(src)
+    run.extra_assumptions.append('hash-table queries: equal? on the two keys is answered by a per-query constant (the key contents are constrained to match it) and calls to sexp_hash from the table code are answered by its specification (any function of the key '
+                                 'that gives equal? keys the same value, reduced modulo the bound); the real hash is the subject of the equal=>hash queries')
 
 
 def queries(tier):
@@ -31,14 +57,19 @@ def queries(tier):
         mods = [None] if tier != 'quick' else [None]
         q('equal=>hash[%s]' % k, {'CHECK': 2, 'AKIND': KINDS[k], 'BKIND': KINDS[k], 'MODCONST': '((1L<<61)-1)' if k != 'big2' else 8}, backends=pf)
     q('equal=>hash[big1,big2]', {'CHECK': 2, 'AKIND': KINDS['big1'], 'BKIND': KINDS['big2']}, backends=pf)
-    # hash tables as finite maps: one insertion, then lookup / second insertion / deletion through another key object
-    # (thorough tier only: with two hash chains per lookup no query of this group reached a verdict within the quick cap)
-    for op, nm in (() if tier == 'quick' else ((1, 'insert A, lookup B, insert B'), (2, 'insert A, lookup B, delete B, lookup A'))):
-        for ak, bk in ((1, 1), (1, 2), (2, 1), (2, 2)):
-            qs.append(Query(name='hash-table[%s; A=big%d, B=big%d free words]' % (nm, ak, bk), harness='C15_table.c', units=UNITS, unit_defs=UD,
-                            defs={'OP': op, 'AK': ak, 'BK': bk, 'NBUCKETS': 8 if tier == 'quick' else 2}, unwind=10, unwindset=dict(US, **{'strcmp.0': 12, 'mk_table.0': 12}),
-                            remove_bodies=EXC, cuts=['sexp_apply', 'sexp_eval_string', 'sexp_print_exception_op'], cap=cap, backends=pf,
-                            functions=['sexp_hash_table_cell', 'sexp_hash_table_delete', 'sexp_get_bucket', 'sexp_scan_bucket', 'sexp_regrow_hash_table', 'sexp_hash', 'sexp_equalp_op']))
+    # hash tables as finite maps: one insertion, then lookup / second insertion / deletion through another key object; 2 buckets, so that
+    # collisions, distinct buckets and (thorough: regrow) all occur; sexp_hash is answered by its specification (see prepare)
+    for op, nm in ((1, 'insert A, lookup B, insert B'), (2, 'insert A, lookup B, delete B, lookup A')):
+        for ak, bk in (((1, 1), (1, 2)) if tier == 'quick' else ((1, 1), (1, 2), (2, 1), (2, 2))):
+            for ha, hb, same in ((0, 0, 1), (0, 0, 0), (0, 1, 0), (1, 0, 0), (1, 1, 1), (1, 1, 0)):
+                if tier == 'quick' and ha == 1 and hb == 1:
+                    continue
+                qs.append(Query(name='hash-table[%s; A=big%d, B=big%d free words; hash residues %d,%d; keys %s]' % (nm, ak, bk, ha, hb, 'equal?' if same else 'different'),
+                                harness='C15_table.c', units=UNITS_TAB, unit_defs=UD,
+                                defs={'OP': op, 'AK': ak, 'BK': bk, 'NBUCKETS': 2, 'HASH_MODEL': 1, 'HASH_A': ha, 'HASH_B': hb, 'SAME': same}, unwind=10,
+                                unwindset=dict(US, **{'strcmp.0': 12, 'mk_table.0': 12}),
+                                remove_bodies=EXC + ['sexp_equalp_op'], cuts=['sexp_apply', 'sexp_eval_string', 'sexp_print_exception_op'], cap=cap, backends=pf,
+                                functions=['sexp_hash_table_cell', 'sexp_hash_table_delete', 'sexp_get_bucket', 'sexp_scan_bucket', 'sexp_regrow_hash_table', 'sexp_equalp_op']))
     return qs
 
 
